@@ -89,6 +89,8 @@ pub struct TwinRet {
     pub traced: crate::corpus::Outcome,
     /// current_local_parent() as the traced call saw it
     pub parent_ctx: Option<(u128, u64, bool)>,
+    /// the follow-up call of the short twin made in the same scope after the traced call
+    pub followup: crate::corpus::Outcome,
 }
 
 #[derive(Clone, Debug)]
@@ -338,6 +340,7 @@ pub struct ThreadCtx {
     pub shared: Arc<Shared>,
     pub inner_rets: Vec<(OpRef, Ret)>,
     pub learned: Vec<(OpRef, u64)>,
+    pub cur_cell: Option<Arc<crate::tasks::ScriptCell>>,
 }
 
 fn learn(ctx: &mut ThreadCtx, op: OpRef, sp: &Span) {
@@ -699,6 +702,14 @@ pub fn exec_op(ctx: &mut ThreadCtx, idx: usize, op: OpRef, o: &Op, inner: &[Op])
             }
             Ret::None
         }
+        Op::HoldChild => {
+            let sp = Span::enter_with_local_parent(span_name(case.str_seed, op));
+            learn(ctx, op, &sp);
+            if let Some(c) = &ctx.cur_cell {
+                c.get().held.push(sp);
+            }
+            Ret::None
+        }
         Op::LocalBurst { n } => {
             let name = span_name(case.str_seed, op);
             for _ in 0..*n {
@@ -727,8 +738,16 @@ pub fn exec_op(ctx: &mut ThreadCtx, idx: usize, op: OpRef, o: &Op, inner: &[Op])
             let g = slot.map(|s| slot_span(&sh, s).set_local_parent());
             let parent_ctx = ctx_tuple(SpanContext::current_local_parent());
             let traced = crate::corpus::run(*f, *arg, true);
+            // a second traced call in the same scope: the first one must have left the local
+            // context as it found it (also after a panic or an early drop)
+            let followup = crate::corpus::run(1, *arg, true);
             drop(g);
-            Ret::Twin(Box::new(TwinRet { plain, traced, parent_ctx }))
+            Ret::Twin(Box::new(TwinRet {
+                plain,
+                traced,
+                parent_ctx,
+                followup,
+            }))
         }
         Op::NewTask { .. } | Op::Poll { .. } | Op::DropTask { .. } => crate::tasks::exec_async(ctx, idx, op, o, inner),
     }
@@ -778,6 +797,7 @@ pub fn thread_main(sh: Arc<Shared>, t: u8) {
         shared: sh.clone(),
         inner_rets: vec![],
         learned: vec![],
+        cur_cell: None,
     };
     let n = sh.case.ops.len();
     for i in 0..n {
